@@ -627,10 +627,31 @@ def lane_swap(node, ren, what):
     `Simd::lane(l, e)` inside X, Y is replaced by e (one lane)"""
     if node[0] == "for":
         m = re.fullmatch(r"std::size_t (\w+)=0;\1<Simd::lanes\([^;]*\);(?:\+\+\1|\1\+\+)", node[1])
-        if not m or len(node[2]) != 1 or node[2][0][0] != "stmt":
+        inner = node[2]
+        if m and len(inner) == 1 and inner[0][0] == "if" and not inner[0][3] and len(inner[0][2]) == 1:
+            # `if (Simd::lane(l, a) != b) swap(...)`: a guard that only skips exchanging something with itself
+            g = re.fullmatch(r"Simd::lane\(%s,(\w+)\)!=(\w+)|(\w+)!=Simd::lane\(%s,(\w+)\)" % (m.group(1), m.group(1)), inner[0][1])
+            if not g:
+                raise TranslateError("%s: guard inside the lane loop outside the grammar: %r" % (what, inner[0][1]))
+            guard = {ren(x) for x in g.groups() if x}
+            inner = inner[0][2]
+        else:
+            guard = None
+        if not m or len(inner) != 1 or inner[0][0] != "stmt":
             raise TranslateError("%s: lane loop outside the grammar: %r" % (what, node[1]))
         lv = m.group(1)
-        st = node[2][0][1]
+        st = inner[0][1]
+        if guard is not None:
+            mm = re.fullmatch(r"(?:std::)?swap\((.+)\)", st)
+            idx = set()
+            if mm:
+                for a in split_args(mm.group(1)):
+                    a = ren(re.sub(r"Simd::lane\(%s,(\w+)\)" % lv, r"\1", re.sub(r"^Simd::lane\(%s,(.+)\)$" % lv, r"\1", a)))
+                    k = re.match(r"(?:A|\(\*rhs_\))\[(\w+)\]", a)
+                    if k:
+                        idx.add(k.group(1))
+            if idx != guard:
+                raise TranslateError("%s: the guard %r does not compare the two exchanged rows %r" % (what, sorted(guard), sorted(idx)))
     elif node[0] == "stmt":
         lv = None
         st = node[1]
@@ -663,6 +684,13 @@ def translate_lu(dm, diag):
                               r"\s*bool\s+throwEarly\s*,\s*bool\s+doPivoting\s*\)(?=\s*\{)", "luDecomposition")
     top = significant(parse_seq(normalize(body)))
     W = "luDecomposition"
+    # a hoisted constant zero of the pivot type: `const real_type zero(0);` / `= 0` / `= real_type(0)`
+    zero_names = []
+    for nd in list(top):
+        mz = nd[0] == "stmt" and re.fullmatch(r"(?:const |constexpr )?real_type (\w+)(?:\(0(?:\.0*)?\)|=0(?:\.0*)?|=real_type\(0(?:\.0*)?\))", nd[1])
+        if mz:
+            zero_names.append(mz.group(1))
+            top.remove(nd)
     if len(top) != 1:
         raise TranslateError("%s: expected exactly one outer loop, found %d statements" % (W, len(top)))
     ren = Ren()
@@ -737,7 +765,7 @@ def translate_lu(dm, diag):
                "def luFuncSwapArgs : List String := %s" % lean_str_list([ren(x) for x in split_args(m.group(1))]))
     # (3) nonsingularLanes = nonsingularLanes && (pivmax != real_type(0));
     st = ob[2][1] if ob[2][0] == "stmt" else ""
-    ZERO = r"(?:real_type\(0(?:\.0*)?\)|0(?:\.0*)?)"
+    ZERO = r"(?:real_type\(0(?:\.0*)?\)|0(?:\.0*)?%s)" % "".join("|" + re.escape(z) for z in zero_names)
     m = (re.fullmatch(r"nonsingularLanes=nonsingularLanes&&\((\w+)!=" + ZERO + r"\)", st)
          or re.fullmatch(r"nonsingularLanes=nonsingularLanes&&!\((\w+)==" + ZERO + r"\)", st)
          or re.fullmatch(r"nonsingularLanes=nonsingularLanes&&\(" + ZERO + r"!=(\w+)\)", st))
